@@ -389,6 +389,8 @@ type (
 		P *hashTB
 	}
 	hashTD struct{ A int64 }
+	hashTG string
+	hashTH int32
 )
 
 // TestGobHashChild runs in a fresh process: registers the types named in VERIF_TYPES in that order, prints the hash.
@@ -417,6 +419,10 @@ func TestGobHashChild(t *testing.T) {
 			vals = append(vals, modela.User{})
 		case "F":
 			vals = append(vals, modelb.User{})
+		case "G": // named basic types
+			vals = append(vals, hashTG(""))
+		case "H":
+			vals = append(vals, hashTH(0))
 		}
 	}
 
@@ -451,7 +457,7 @@ func TestGobHashOrders(t *testing.T) {
 	defer f.Close()
 
 	enc := json.NewEncoder(f)
-	pool := []string{"A", "B", "C", "D", "E", "F"}
+	pool := []string{"A", "B", "C", "D", "E", "F", "G", "H"}
 
 	var specs [][]string
 
@@ -468,7 +474,8 @@ func TestGobHashOrders(t *testing.T) {
 		specs = append(specs, s)
 	}
 
-	specs = append(specs, []string{"E"}, []string{"F"}, []string{"E", "F"}, []string{"F", "E"}, []string{"A", "F", "E"})
+	specs = append(specs, []string{"E"}, []string{"F"}, []string{"E", "F"}, []string{"F", "E"}, []string{"A", "F", "E"},
+		[]string{"G"}, []string{"H"}, []string{"A", "G"}, []string{"G", "H"})
 
 	for len(specs) < n {
 		k := 1 + rng.Intn(6)
